@@ -9,7 +9,7 @@ SPEC = os.path.join(VERIF, "spec")
 HARN = os.path.join(VERIF, "harness")
 BUILD = os.path.join(VERIF, "build")
 RUN = os.path.join(VERIF, "run")
-EVID = os.path.join(VERIF, "evidence")
+EVID = os.environ.get("VP_EVID") or os.path.join(VERIF, "evidence")
 GUARD = "LIBMODULE_VERIF"
 TLA_JAR = "/opt/veriftools/tla/tla2tools.jar"
 
